@@ -130,6 +130,22 @@ def run(tier):
                         {"input": nm, "observed": o, "unmodified": b, "group": toks[tok], "position": p,
                          "problem": "the result is not the unmodified sugar whose position carries (or has been replaced by) the group",
                          "replay_cmd": "./check C04 --replay <this file>"})
+    # the same single modifications in processes that have first converted inputs which postpone or fail (groups for
+    # positions that do not exist, group-on-group notation, resized open forms): the same molecules come back
+    again = r.sample(singles, min(len(singles), 60 if tier == "quick" else 600))
+    anames = sorted(set(f"{s}{p}{tok}" for s, p, tok in again) | {"Neu5Ac", "Kdo8P", "Glc3Me", "LDManHep6P", "Neu", "Glc"})
+    aouts = dict(zip(anames, C.run_impl_parallel("convert_many", [{"iupac": n_, "kw": {}} for n_ in anames], extra={"prelude": True})))
+    base_extra = dict(zip(["Neu5Ac", "Kdo8P", "Glc3Me", "LDManHep6P", "Neu", "Glc"], chem.convert_all(["Neu5Ac", "Kdo8P", "Glc3Me", "LDManHep6P", "Neu", "Glc"])))
+    stats["after_failed_calls"] = 0
+    for n_ in anames:
+        first = (outs.get(n_) or base_extra.get(n_) or {}).get("smiles")
+        second = aouts[n_]["smiles"]
+        stats["after_failed_calls"] += 1
+        report.case("after-failed-calls:" + n_, True)
+        if bool(first) != bool(second) or (first and not orc.same(first, second)):
+            report.fail({"site": "reactor", "kind": "depends-on-earlier-conversions"},
+                        {"input": n_, "in_a_fresh_process": first, "after_postponing_and_failing_inputs": second,
+                         "problem": "the molecule returned for a modified residue depends on what the process converted before"})
     for sg, p, t in stacking:
         nm = f"{sg}N{p}{t}"
         o, b = outs[nm]["smiles"], outs[f"{sg}N"]["smiles"]
